@@ -281,6 +281,11 @@ impl AuthManager {
             .unwrap()
             .as_secs()
             + expiry_seconds;
+        #[cfg(sneldb_verif)]
+        let expires_at = match crate::verif::token_now_secs() {
+            Some(now) => now + expiry_seconds,
+            None => expires_at,
+        };
 
         // Generate 32 random bytes (256 bits) for the token
         let mut token_bytes = [0u8; 32];
@@ -329,6 +334,8 @@ impl AuthManager {
             .duration_since(UNIX_EPOCH)
             .unwrap()
             .as_secs();
+        #[cfg(sneldb_verif)]
+        let now = crate::verif::token_now_secs().unwrap_or(now);
 
         if session.expires_at < now {
             tracing::warn!(
